@@ -47,6 +47,7 @@ def rect2polar(x, y):
     :return theta: Angle (decimal degrees)
     :rtype theta: float (decimal degrees)
     """
+    x, y = float(x), float(y)
     r = sqrt(x ** 2 + y ** 2)
     theta = atan2(x, y)
     if theta < 0:
